@@ -122,10 +122,29 @@ pub fn gen(c: &Chain, cfg: &Cfg, m: &Menu, rng: &mut Rng, kind: &str) -> Option<
         }
         "from_b" | "from_st" => {
             let t = if kind == "from_b" { "bsei" } else { "stsei" };
+            // v spends u's tokens; three times out of four a pair with a usable allowance, if there is one
+            let (mut u, mut v) = (u.clone(), v.clone());
+            if rng.chance(3, 4) {
+                let mut pairs = vec![];
+                for o in &cfg.users {
+                    for sp in &cfg.users {
+                        if o != sp {
+                            let al: cw20::AllowanceResponse = c.q(t, &cw20::Cw20QueryMsg::Allowance { owner: o.clone(), spender: sp.clone() });
+                            if !al.allowance.is_zero() && tokbal(c, t, o) > 0 {
+                                pairs.push((o.clone(), sp.clone()));
+                            }
+                        }
+                    }
+                }
+                if !pairs.is_empty() {
+                    let p = rng.pick(&pairs).clone();
+                    u = p.0;
+                    v = p.1;
+                }
+            }
             if u == v {
                 return None;
             }
-            // v spends u's tokens
             let al: cw20::AllowanceResponse = c.q(t, &cw20::Cw20QueryMsg::Allowance { owner: u.clone(), spender: v.clone() });
             let have = (al.allowance.u128() as u64).min(tokbal(c, t, &u));
             let a = amount(rng, have, m.amax);
